@@ -30,6 +30,7 @@ import CdsVerif.Algo.SplitList.Model
 import CdsVerif.Algo.SplitList.Snap
 import CdsVerif.Algo.Feldman.Model
 import CdsVerif.Algo.SkipList.Abs
+import CdsVerif.Algo.SkipList.Snap
 import CdsVerif.Algo.Lazy.Model
 import CdsVerif.Algo.Lazy.Snap
 import CdsVerif.Algo.Iterable.Model
@@ -259,6 +260,9 @@ def main (args : List String) : IO UInt32 := do
     replayLoop stdin CdsVerif.Algo.SkipList.replayModel CdsVerif.Algo.SkipList.replayInit
       (fun loc => loc == "hgt" || ((loc.startsWith "h." || loc.startsWith "n") && loc.any (· == '.') && !(loc.any (· == '+'))))
       CdsVerif.Algo.SkipList.replayInv none
+      -- tie S on the machine side: the dump of ALL levels of the final machine state (Algo/SkipList/Snap.lean `snapOf`;
+      -- Props/C18Reach.lean, Props/C15SkipListUpper.lean) against the `SNAP skip …` line of the client
+      (some (fun r => CdsVerif.Algo.SkipList.snapTokens r.c.maxH r.s))
     return 0
   | ["replay", "feldman"] =>
     -- harness variant `ifset_hp_named` of the `hashset` client (intrusive FeldmanHashSet<HP>); header words hb= ab= shift=
